@@ -1037,7 +1037,7 @@ def quantile(
         drop_axis=axis if not keepdims else None,
         new_axis=0 if isinstance(q, Iterable) else None,
         chunks=_get_quantile_chunks(a, q, axis, keepdims),
-        dtype=np.quantile(np.array([0], dtype=a.dtype), q).dtype,
+        dtype=np.quantile(np.array([0], dtype=a.dtype), q, method=method).dtype,
         **kwargs,
     )
 
@@ -1119,7 +1119,7 @@ def nanquantile(
         drop_axis=axis if not keepdims else None,
         new_axis=0 if isinstance(q, Iterable) else None,
         chunks=_get_quantile_chunks(a, q, axis, keepdims),
-        dtype=np.nanquantile(np.array([0], dtype=a.dtype), q).dtype,
+        dtype=np.nanquantile(np.array([0], dtype=a.dtype), q, method=method).dtype,
         **kwargs,
     )
 
